@@ -490,6 +490,9 @@ class Gen:
             ("RotationYMatrix(-a)", RYm),
             ("RotationZMatrix(-a)", RZm),
             ("NegativeMomentum(p)", lz.NegativeMomentum(I.p)),
+            ("NegativeMomentum(p+q)", lz.NegativeMomentum(ae.ArraySum(I.p, I.q))),
+            ("BoostMatrix(NegativeMomentum(p+q))", lz.BoostMatrix(lz.NegativeMomentum(ae.ArraySum(I.p, I.q)))),
+            ("ArrayMultiplication(B(p+q),p)", AM(lz.BoostMatrix(ae.ArraySum(I.p, I.q)), I.p)),
             ("ArrayMultiplication(B(p),p)", AM(B, I.p)),
             ("ArrayMultiplication(RZ,p)", AM(RZ, I.p)),
             ("ArrayMultiplication(BZ,RY,p)", AM(BZ, RY, I.p)),
@@ -514,7 +517,7 @@ class Gen:
         I = self.I
         lz, ae = I.lz, I.ae
         if isinstance(expr, lz.NegativeMomentum):
-            expr = expr.evaluate()
+            return [sp.eye(4)], I.exact_vec(expr, env)
         if isinstance(expr, ae.MatrixMultiplication):
             return [I.exact_mat(t, env) for t in expr.args], None
         if isinstance(expr, ae.ArrayMultiplication):
